@@ -73,6 +73,35 @@ pub fn nonce_generator_cases(s: &mut Session, tier: &str, rng: &mut Rng) {
     s.mark_nontrivial();
 }
 
+/// every udp session draws a fresh, unpredictable session id: 96 client sessions created in a row (all inside a second or
+/// two) - no id repeats and no bit of the 64 is the same in all of them (an id built from the clock fails this at once;
+/// 96 honest ids fail it with probability 64 * 2^-95)
+pub fn session_id_freshness_cases(s: &mut Session, rng: &mut Rng) {
+    for cipher in CIPHERS {
+        if !is2022(cipher) {
+            continue;
+        }
+        s.begin_case(&format!("udp-session-ids:{}", cipher));
+        let cfg = random_cfg(rng, cipher, false);
+        let us = s.fresh("us");
+        s.run(&format!("ssu.server {} cipher={} password={} users=-", us, cipher, cfg.server_password));
+        let mut ids: Vec<Vec<u8>> = vec![];
+        for _ in 0..96 {
+            let uc = s.fresh("uc");
+            s.run(&format!("ssu.client {} cipher={} password={}", uc, cipher, cfg.client_password));
+            let w = timed(s, &format!("ssu.cenc {} addr=4:01020304:53 payload={}", uc, hex(&rng.bytes(4))));
+            let r = timed(s, &format!("ssu.sdec {} {}", us, w));
+            let Some(id) = field(&r, "csid").and_then(|x| x.parse::<u64>().ok()) else {
+                s.oracle_fail(&format!("udp-session-ids:{}", cipher), &format!("the first datagram of a fresh session is not accepted: {}", &r[..r.len().min(40)]));
+                return;
+            };
+            ids.push(id.to_be_bytes().to_vec());
+        }
+        check_fresh(s, &format!("udp-session-ids:{}", cipher), "the client session id", &ids);
+        s.mark_nontrivial();
+    }
+}
+
 /// a udp session at the end of its packet-id space: ids stay distinct and the session ends (encode refuses)
 /// rather than reuse one — reached through the client crate's verification hook that sets the counter
 pub fn packet_id_exhaustion_cases(s: &mut Session, rng: &mut Rng) {
@@ -162,6 +191,7 @@ fn server_session_cases(s: &mut Session, rng: &mut Rng) {
 }
 
 pub fn generate(s: &mut Session, tier: &str, rng: &mut Rng) {
+    session_id_freshness_cases(s, rng);
     let Some(mut cr) = Crafter::new() else {
         s.begin_case("no-driver");
         s.oracle_fail("craft", "the Lean driver could not be started for Spec-side parsing");
